@@ -211,6 +211,7 @@ package bpmn
 
 //@ type Process
 //@   field eventConsumers guarded_by eventConsumersLock
+//@   field flowNodeMapping nonnil
 
 //@ type subProcess
 //@   field eventConsumers guarded_by eventConsumersLock
@@ -916,6 +917,8 @@ package bpmn
 // counted in the wait group before the watcher exists.
 //@ func (*ProcessSet).StartAll
 //@   prop C18
+//@   requires [member-processes-are-distinct-objects] forall a int, b int :: off(ps.executes) <= a && a < b && b < off(ps.executes) + len(ps.executes) ==> at(ps.executes, a) != at(ps.executes, b)
+//@   requires forall a int :: off(ps.executes) <= a && a < off(ps.executes) + len(ps.executes) ==> at(ps.executes, a) != nil
 //@   ensures [message-loop-started-first] isSpawn(ev(old(evlen))) && evch(ev(old(evlen))) == code("(*ProcessSet).run")
 //@   ensures [one-message-loop] count(Spawn, code("(*ProcessSet).run")) == old(count(Spawn, code("(*ProcessSet).run"))) + 1
 //@   ensures [a-watcher-per-started-process] result == nil ==>
@@ -927,7 +930,8 @@ package bpmn
 //@               isSpawn(ev(old(evlen))) && evch(ev(old(evlen))) == code("(*ProcessSet).run") && evlen > old(evlen)
 //@     invariant count(Spawn, code("(*ProcessSet).tracerProcess")) == old(count(Spawn, code("(*ProcessSet).tracerProcess"))) + rk1
 //@     invariant count(WgAdd, mu(ps.wg)) == old(count(WgAdd, mu(ps.wg))) + rk1
-//@     invariant ps.executes == old(ps.executes)
+//@     invariant ps.executes == old(ps.executes) && preserved("elems([]*Process)")
+//@     invariant forall a int :: off(ps.executes) + rk1 <= a && a < off(ps.executes) + len(ps.executes) ==> held(mu(at(ps.executes, a).complete)) == 0
 
 // The message loop: the cease-process-set trace is sent at most once, only on the completion signal, and ends the
 // loop; a throw message instantiates at most one process, counted before its watcher is started.
@@ -940,6 +944,7 @@ package bpmn
 //@   loop 1 for
 //@     invariant count(Trace, CeaseProcessSetTrace) == old(count(Trace, CeaseProcessSetTrace))
 //@     invariant ps.done == old(ps.done) && ps.mch == old(ps.mch)
+//@     invariant [a-process-not-yet-created-holds-no-lock] forall q *Process :: q > alloc ==> held(mu(q.complete)) == 0
 //@     iter ensures [at-most-one-instantiation-per-message] count(Spawn, code("(*ProcessSet).tracerProcess")) <= old(count(Spawn, code("(*ProcessSet).tracerProcess"))) + 1
 //@     iter ensures [instantiated-process-is-counted-before-it-is-watched]
 //@             count(WgAdd, mu(ps.wg)) - old(count(WgAdd, mu(ps.wg))) == count(Spawn, code("(*ProcessSet).tracerProcess")) - old(count(Spawn, code("(*ProcessSet).tracerProcess")))
@@ -952,6 +957,7 @@ package bpmn
 //@   assumed
 //@   flag emits opaque
 //@   flag allocs
+//@   ensures result1 == nil ==> result0 != nil && fresh(result0)
 
 // Looking up the waiting process of a message flow target reads the definitions only.
 //@ func (*ProcessSet).resolveWaitingProcessAndEvent
@@ -1197,8 +1203,7 @@ package bpmn
 //@ func (*Process).StartWith
 //@   prop C02 C18
 //@   flag entrylocks
-//@   flag lockeffect
-//@   requires p.flowNodeMapping != nil
+//@   flag lockeffect p.complete
 //@   requires [completion-lock-free-when-the-monitor-is-started] !oncedone(mu(p.monitorOnce)) ==> held(mu(p.complete)) == 0
 //@   ensures [monitor-started-at-most-once] count(Spawn, code("(*Process).ceaseFlowMonitor$1")) <= old(count(Spawn, code("(*Process).ceaseFlowMonitor$1"))) + 1
 //@   ensures [a-second-start-event-starts-no-second-monitor] old(oncedone(mu(p.monitorOnce))) ==>
@@ -1211,13 +1216,12 @@ package bpmn
 //@ func (*Process).StartAll
 //@   prop C02 C18
 //@   flag entrylocks
-//@   flag lockeffect
-//@   requires p.flowNodeMapping != nil
+//@   flag lockeffect p.complete
 //@   requires !oncedone(mu(p.monitorOnce)) ==> held(mu(p.complete)) == 0
 //@   ensures [at-most-one-monitor-however-many-start-events] count(Spawn, code("(*Process).ceaseFlowMonitor$1")) <= old(count(Spawn, code("(*Process).ceaseFlowMonitor$1"))) + 1
 //@   ensures startFrame()
 //@   loop 1 range *p.element.StartEvents()
-//@     invariant p.flowNodeMapping != nil && startFrame()
+//@     invariant startFrame()
 //@     invariant !oncedone(mu(p.monitorOnce)) ==> held(mu(p.complete)) == 0 && count(Spawn, code("(*Process).ceaseFlowMonitor$1")) == old(count(Spawn, code("(*Process).ceaseFlowMonitor$1")))
 //@     invariant count(Spawn, code("(*Process).ceaseFlowMonitor$1")) <= old(count(Spawn, code("(*Process).ceaseFlowMonitor$1"))) + 1
 
